@@ -222,6 +222,25 @@ def shape_flags_probe(ex):
     return run
 
 
+def reward_shape_probe(ex):
+    import ast
+
+    def run():
+        fn = _fn(ex, REL, "FFSPEnv._step")
+        if fn is None:
+            return None
+        txt = [ex.norm(n) for n in ast.walk(fn) if isinstance(n, ast.Assign)]
+        if not any(t.startswith("end_schedule=") for t in txt):
+            return None
+        f0 = "end_schedule=td['schedule']+td['job_duration'].permute(0,2,1)" in txt
+        f1 = ("end_time_max,_=end_schedule[:,:,:self.num_job].max(dim=-1)" in txt
+              and "end_time_max,_=end_time_max.max(dim=-1)" in txt)
+        f2 = "reward=-end_time_max.to(torch.float32)" in txt
+        return "[" + ", ".join(_b(v) for v in (f0, f1, f2)) + "]"
+
+    return run
+
+
 def gen_probe(ex):
     """generator: [default num_stage, num_machine, num_job, min_time, max_time] and whether
     `torch.randint(low=self.min_time, high=self.max_time, …)`"""
@@ -255,7 +274,77 @@ def gen_probe(ex):
     return defaults, lowhigh
 
 
+_TBL_CACHE = {}
+
+
+def tables_exec(ex):
+    """Regenerate the index tables themselves: the source text of the class `IndexTables` (and nothing else) is
+    executed with a stub env of 2 stages x 3 machines, once per `flatten_stages` value; the resulting
+    `stage_table`, `machine_table`, `stage_machine_table` are emitted as Lean literals.  Any failure (class
+    moved, constructor signature changed, torch missing) is a pattern-miss."""
+    import ast
+
+    if "v" in _TBL_CACHE:
+        return _TBL_CACHE["v"]
+    out = None
+    try:
+        tree = ex.parse(REL)
+        cls = ex.find_function(tree, "IndexTables")
+        src = ast.get_source_segment(open(ex.os.path.join(ex.REPO, REL)).read(), cls)
+        import itertools
+        import types
+
+        import torch
+
+        ns = {"torch": torch, "itertools": itertools, "FFSPEnv": object}
+        exec(compile(src, "<IndexTables>", "exec"), ns)
+        res = {}
+        for flat in (False, True):
+            env = types.SimpleNamespace(num_stage=2, num_machine=3, device="cpu", flatten_stages=flat)
+            tb = ns["IndexTables"](env)
+            res[flat] = (tb.stage_table.tolist(), tb.machine_table.tolist(), tb.stage_machine_table.tolist())
+        out = res
+    except Exception:
+        out = None
+    _TBL_CACHE["v"] = out
+    return out
+
+
+def _ll(rows):
+    return "[" + ", ".join("[" + ", ".join(str(int(v)) for v in r) + "]" for r in rows) + "]"
+
+
 def register(ex):
+    def t_stage():
+        r = tables_exec(ex)
+        return None if r is None else "[" + ", ".join(str(int(v)) for v in r[False][0]) + "]"
+
+    def t_machine():
+        r = tables_exec(ex)
+        return None if r is None else _ll(r[False][1])
+
+    def t_sm_unflat():
+        r = tables_exec(ex)
+        return None if r is None else _ll(r[False][2])
+
+    def t_sm_flat():
+        r = tables_exec(ex)
+        return None if r is None else _ll(r[True][2])
+
+    ex.probe("ffspTblStage23", "List Nat", "[0, 0, 0, 1, 1, 1]",
+             "ffsp/env.py:IndexTables (executed, 2 stages x 3 machines)  stage_table", t_stage)
+    ex.probe("ffspTblMachine23", "List (List Nat)",
+             "[[0, 1, 2, 3, 4, 5], [0, 2, 1, 3, 5, 4], [1, 0, 2, 4, 3, 5], [1, 2, 0, 4, 5, 3], [2, 0, 1, 5, 3, 4], [2, 1, 0, 5, 4, 3]]",
+             "ffsp/env.py:IndexTables (executed)  machine_table", t_machine)
+    ex.probe("ffspTblStageMachine23", "List (List Nat)",
+             "[[0, 1, 2, 0, 1, 2], [0, 2, 1, 0, 2, 1], [1, 0, 2, 1, 0, 2], [1, 2, 0, 1, 2, 0], [2, 0, 1, 2, 0, 1], [2, 1, 0, 2, 1, 0]]",
+             "ffsp/env.py:IndexTables (executed, flatten_stages=False)  stage_machine_table", t_sm_unflat)
+    ex.probe("ffspTblStageMachineFlat23", "List (List Nat)",
+             "[[0, 1, 2, 3, 4, 5], [0, 2, 1, 3, 5, 4], [1, 0, 2, 4, 3, 5], [1, 2, 0, 4, 5, 3], [2, 0, 1, 5, 3, 4], [2, 1, 0, 5, 4, 3]]",
+             "ffsp/env.py:IndexTables (executed, flatten_stages=True)  stage_machine_table", t_sm_flat)
+    ex.probe("ffspRewardShape", "List Bool", "[true, true, true]",
+             "ffsp/env.py:_step  end_schedule = schedule + job_duration.permute(0, 2, 1); two max(dim=-1); reward = -max",
+             reward_shape_probe(ex))
     ex.probe("ffspSentinel", "Int", "(-999999)", "ffsp/env.py:_reset  `schedule = torch.full(..., fill_value=-999999)`",
              sentinel_probe(ex))
     ex.probe("ffspStepUsesMachineIdx", "Bool", "true",
